@@ -18,6 +18,9 @@ open Gossamer.C20
 #print axioms C20_graph_inv
 #print axioms C20_graph_weight_refines
 #print axioms C20_graph_ancestor_refines
+#print axioms C20_graph_ghost_refines
+#print axioms C20_graph_ghost_hyps
+#print axioms C20_graph_round_refines
 #print axioms C20_ghost_intolerant_counterexample
 #print axioms C20_estimate_shortcut_counterexample
 #print axioms C20_estimate_intolerant_counterexample
